@@ -60,8 +60,11 @@ def spec_oracle(cfg, r, completed):
     if cfg["kind"] == "rwmh":
         s = s0
         nsp = numpy.array(cfg["stepvec"]).reshape(-1, 1) if cfg["stepmode"] == "vector" else 1.0
+        reqs, vals = r.rng.requests, getattr(r.rng, "values", [])
         for i, sn in enumerate(r.snaps[:completed]):
-            z = numpy.array(cfg["zs"][i]).reshape(-1, 1)
+            lo_, hi_ = (r.snaps[i - 1].get("req_end", 0) if i else 0), sn.get("req_end", 0)
+            zj = [j for j in range(lo_, min(hi_, len(vals))) if reqs[j][0] == "normal"]
+            z = (numpy.asarray(vals[zj[0]], dtype=float) if zj else numpy.array(cfg["zs"][i])).reshape(-1, 1)      # the normal draw of this proposal
             want = common.col(numpy.array(sn["cur_before"]).reshape(-1, 1) + s * nsp * z)
             if not near_vec(want, sn["proposed"]):
                 out.append(("update-equation", f"proposal {i} was not generated with the step size the update equation gives ({s})"))
